@@ -196,6 +196,17 @@ def build(geom):
               dict(kind="solid_fluid", transmission_reflection="reflection", reflection_against=_AGAINST)][role]
         interfaces.append(arim.Interface(pts, ori, are_normals_on_inc_rays_side=f["inc"],
                                          are_normals_on_out_rays_side=f["out"], **kw))
+        if rng.random() < 0.25 and (f["inc"] is not None or f["out"] is not None):
+            # the declared sides computed by the caller from a NumPy comparison (np.dot(leg, normal) > 0): numpy.bool_ values.
+            # The library at present refuses them (constructor assertion); a library that accepts them must honour them
+            try:
+                itf_ = arim.Interface(pts, ori, are_normals_on_inc_rays_side=None if f["inc"] is None else np.bool_(f["inc"]),
+                                      are_normals_on_out_rays_side=None if f["out"] is None else np.bool_(f["out"]), **kw)
+                itf_.reverse()
+                interfaces[-1] = itf_
+                chk.count(normal_side_flags="numpy.bool_ accepted by the constructor")
+            except (AssertionError, TypeError, ValueError):
+                chk.count(normal_side_flags="numpy.bool_ refused by the constructor")
     mats = [arim.Material(longitudinal_vel=float(v)) for v in geom["vels"]]
     path = arim.Path(tuple(interfaces), tuple(mats), tuple(["L"] * len(mats)))
     interior = np.array(geom["interior"], dtype=arim.settings.INT).reshape(
@@ -815,7 +826,10 @@ samples.append({"snell": f"{snell_done} analytic single-ray geometries with tilt
 NIMM = 8 if Q else 50
 nt = 0
 for s_i in range(NIMM):
-    setup = arimgen.immersion_setup(rng, max_refl=int(rng.integers(0, 3)), wall_points=int(rng.integers(30, 120)))
+    # (some scenes are described far from the origin of the GCS: site coordinates, tens to hundreds of metres)
+    far_ = None if s_i % 3 != 1 else rng.uniform(-900.0, 900.0, 3) * float(rng.choice([0.02, 0.2, 1.0]))
+    chk.count(immersion_scene="at the origin" if far_ is None else "translated by tens to hundreds of metres")
+    setup = arimgen.immersion_setup(rng, max_refl=int(rng.integers(0, 3)), wall_points=int(rng.integers(30, 120)), offset=far_)
     batch, refs = [], []
     for name, path in setup["paths"].items():
         if rng.random() > (0.5 if Q else 0.35):
